@@ -290,6 +290,11 @@ Theorem C01_vertex_range : forall l, wf l ->
 Proof. exact vertex_range_correct. Qed.
 Print Assumptions C01_vertex_range.
 
+(* ---- the abstraction (DFS pre-order) lists the words in strictly increasing lexicographic order, prefixes first ---- *)
+Theorem C01_abstraction_sorted : forall l, wf l -> Sorted.StronglySorted lex_lt (keys (abs l)).
+Proof. exact abs_sorted. Qed.
+Print Assumptions C01_abstraction_sorted.
+
 (* ---- stated, not proved in Coq (compared per input by the correspondence run instead) ---- *)
 (* histories that also contain expansion - an operation the property text does not list; its algorithm
    (siblings_expansion) is the subject of C04; here it is modelled at specification level (spec_expand) with the
